@@ -2106,6 +2106,10 @@ def run(chk: Check) -> None:
                 ims, ims_sec = gen_date_header(rng, lm_us // 10 ** 6)
                 if ims_sec == "garbage":
                     continue
+                if i % 2 == 0:
+                    # the same instant written with the zone -0000 (email.utils gives a naive datetime for it; it is UTC)
+                    import email.utils as _eu
+                    ims = _eu.format_datetime(EPOCH + _dt.timedelta(seconds=ims_sec)).replace("+0000", "-0000")
                 how = i % 3
                 try:
                     if how == 0:
@@ -2132,7 +2136,7 @@ def run(chk: Check) -> None:
                 chk.case(("irm-tz", tzname, lines[-1]))
                 want = not ((lm_us // 10 ** 6) <= ims_sec)
                 if got is None or got != ref or got != want:
-                    chk.fail("naive-last-modified-local-time",
+                    chk.fail("date-minus-0000-local-time" if ims.endswith("-0000") and got == ref else "naive-last-modified-local-time",
                              f"TZ={tzname}: is_resource_modified with the naive last_modified {naive!r} (UTC by contract) and "
                              f"{'If-Range' if how == 2 else 'If-Modified-Since'} {ims!r} says {res}; the same instant given as an "
                              f"aware datetime says {'modified' if ref else 'unmodified'}, the property says "
